@@ -204,7 +204,7 @@ impl Value {
     #[must_use]
     pub fn len(&self) -> usize {
         match self {
-            Value::String(v) => v.len(),
+            Value::String(v) => v.chars().count(),
             Value::Array(v) => v.len(),
             _ => 0,
         }
